@@ -143,14 +143,6 @@ pub fn chunks(fams: &[Family], chunk_graphs: u64) -> Vec<Chunk> {
 const SL: &[Cap] = &[Cap::Small, Cap::Large];
 const SLU: &[Cap] = &[Cap::Small, Cap::Large, Cap::Unknown];
 const LH: &[Cap] = &[Cap::Large, Cap::Huge];
-const PAT3: &[&[Cap]] = &[
-	&[Cap::Small, Cap::Small, Cap::Small],
-	&[Cap::Large, Cap::Large, Cap::Large],
-	&[Cap::Small, Cap::Large, Cap::Small],
-	&[Cap::Large, Cap::Small, Cap::Large],
-];
-const PAT4: &[&[Cap]] = &[&[Cap::Small, Cap::Small, Cap::Small, Cap::Small], &[Cap::Large, Cap::Small, Cap::Small, Cap::Large]];
-
 pub fn families(thorough: bool) -> Vec<Family> {
 	let f = |name, nodes, chans, pol, pol_backward, caps, cap_patterns, qset, amount_level| Family {
 		name,
@@ -175,13 +167,14 @@ pub fn families(thorough: bool) -> Vec<Family> {
 	} else {
 		vec![
 			f("n4c1-full", 4, 1, &POL_FULL, None, SLU, &[], QSet::Full, 1),
-			f("n4c2-full", 4, 2, &POL_FULL, None, SL, &[], QSet::Full, 1),
 			f("overflow-n4c1", 4, 1, &POL_OVERFLOW, None, LH, &[], QSet::Overflow, 0),
 			f("overflow-n4c2", 4, 2, &POL_OVERFLOW, None, LH, &[], QSet::Overflow, 0),
+			f("overflow-n4c3", 4, 3, &[Pol::Free, Pol::Extreme], Some(&[Pol::Free]), &[], &[&[Cap::Huge, Cap::Large, Cap::Huge]], QSet::Overflow, 0),
+			f("n3c2-unknown-capacity", 3, 2, &POL_FULL, None, &[Cap::Unknown, Cap::Small], &[], QSet::Full, 0),
+			f("n4c2-full", 4, 2, &POL_FULL, None, SL, &[], QSet::Full, 1),
+			f("n4c4-reduced", 4, 4, &POL_REDUCED, Some(&[Pol::Free]), SL, &[], QSet::Core, 0),
 			f("n3c3-full", 3, 3, &POL_FULL, Some(&POL_BACKWARD), SL, &[], QSet::Medium, 0),
 			f("n4c3-full", 4, 3, &POL_FULL, Some(&POL_BACKWARD), SL, &[], QSet::Core, 0),
-			f("n4c4-reduced", 4, 4, &POL_REDUCED, Some(&[Pol::Free]), SL, &[], QSet::Core, 0),
-			f("overflow-n4c3", 4, 3, &[Pol::Free, Pol::Extreme], Some(&[Pol::Free]), &[], &[&[Cap::Huge, Cap::Large, Cap::Huge]], QSet::Overflow, 0),
 		]
 	}
 }
@@ -293,19 +286,38 @@ pub fn queries(g: &Graph, fam: &Family, thorough: bool) -> Vec<Query> {
 		}
 	}
 	if fam.qset == QSet::Core {
-		// a thin slice of the other dimensions so that large graphs still see them
+		// a slice of the other dimensions so that the large graphs still see them
+		let fh = fh_public(g, 600_000, 0);
 		for &a in &amts {
 			let mut q = Query::base(a);
 			q.max_paths = 2;
-			q.first_hops = Some(fh_public(g, 600_000, 0));
+			q.first_hops = Some(fh.clone());
 			out.push(q);
-			let mut q = Query::base(a);
-			q.max_paths = 2;
-			q.fee_limit = Some(1_500);
-			out.push(q);
+			for fl in [0u64, 1_500, 10_000] {
+				let mut q = Query::base(a);
+				q.max_paths = 2;
+				q.fee_limit = Some(fl);
+				out.push(q);
+			}
 			let mut q = Query::base(a);
 			q.max_len = 2;
 			out.push(q);
+			for mc in [12u32, 46] {
+				for with_fh in [false, true] {
+					let mut q = Query::base(a);
+					q.max_cltv = FINAL_CLTV + mc;
+					if with_fh {
+						q.first_hops = Some(fh.clone());
+					}
+					out.push(q);
+				}
+			}
+			for i in 0..nchan {
+				let mut q = Query::base(a);
+				q.max_paths = 2;
+				q.failed = vec![Graph::scid(i)];
+				out.push(q);
+			}
 		}
 		return out;
 	}
